@@ -4,7 +4,7 @@ CONSTANTS
   McIn <- McAll
   TcIn = {2, 1, 16}
   CpIn = {2, 1, 9, 5}
-  NIn = {8, 10}
+  NIn = {8, 10, 16}
   SsIn <- Ss00
   FullIn = {0}
   StIn = {16}
